@@ -202,8 +202,11 @@ def highest_is_maximum(R, ctx, b, rule='R06.2'):
     for r in I.run(b.path):
         if r.undecided:
             raise CheckError(f"{rule} get_highest_index: UNDECIDED {r.undecided}")
-        outer = [e for e in r.effects if re.search(OUTER, e[0]) and LIST.rstrip('$') in r.long(e[1][0])]
-        if not outer:
+        nx = [e for e in r.effects if e[0].split('::')[-1] == 'next']
+        # the outermost loop's iterator is the one asked first; its later next() calls have the same iterator expression (modulo the call counter)
+        key = lambda e: re.sub(r"[#'](u?\d+)", '', r.long(e[1][0]))
+        outer = [e for e in nx if key(e) == key(nx[0])] if nx else []
+        if not outer or not re.search(OUTER, outer[0][0]):
             raise CheckError(f"{rule} get_highest_index: iteration over the listing not recognised")
         n += 1
         res = r.long(repr(r.result))
